@@ -3,6 +3,8 @@ package c15
 import (
 	"bytes"
 	"fmt"
+	"strconv"
+	"strings"
 	"testing"
 
 	"github.com/z7zmey/php-parser/pkg/token"
@@ -100,6 +102,68 @@ func TestTokenEdit(t *testing.T) {
 			harness.NonTrivial(append([]byte(desc), src...), fmt.Sprintf("[%s]%s in %q", v, desc, trunc(src, 160)))
 		}
 	})
+}
+
+// replayTokenEdit re-applies recorded edits (meta "edits": ` ID "old"->"new"@offset` items) to a fresh
+// parse of the recorded source and checks the printed text.
+func replayTokenEdit(src []byte, v px.Ver, desc string) string {
+	r := px.Parse(append([]byte{}, src...), v, true)
+	if r.Root == nil || len(r.Errs) > 0 || r.Panic != "" {
+		return ""
+	}
+	byOff := map[int]*token.Token{}
+	for _, tk := range astx.FlatTokens(r.Root) {
+		if tk.Position != nil && len(tk.Value) > 0 {
+			byOff[tk.Position.StartPos] = tk
+		}
+	}
+	want := append([]byte{}, src...)
+	type edit struct {
+		start, end int
+		val        []byte
+	}
+	var edits []edit
+	rest := desc
+	for {
+		i := strings.Index(rest, "->\"")
+		if i < 0 {
+			break
+		}
+		rest = rest[i+2:]
+		j := strings.LastIndex(rest[:strings.Index(rest+" ", "@")+0], "\"")
+		at := strings.Index(rest, "\"@")
+		if at < 0 {
+			break
+		}
+		nv, err := strconv.Unquote(rest[:at+1])
+		_ = j
+		if err != nil {
+			break
+		}
+		var off int
+		fmt.Sscanf(rest[at+2:], "%d", &off)
+		if tk := byOff[off]; tk != nil {
+			edits = append(edits, edit{tk.Position.StartPos, tk.Position.EndPos, []byte(nv)})
+			tk.Value = []byte(nv)
+		}
+		rest = rest[at+2:]
+	}
+	for i := 0; i < len(edits); i++ {
+		for j := i + 1; j < len(edits); j++ {
+			if edits[j].start > edits[i].start {
+				edits[i], edits[j] = edits[j], edits[i]
+			}
+		}
+	}
+	for _, e := range edits {
+		want = append(append(append([]byte{}, want[:e.start]...), e.val...), want[e.end:]...)
+	}
+	out := px.Print(r.Root)
+	harness.Eval()
+	if !bytes.Equal(out, want) {
+		return fmt.Sprintf("[%s] after the recorded token edits (%s ) the printed text is not the source with those spans replaced: %q vs expected %q", v, desc, trunc(out, 200), trunc(want, 200))
+	}
+	return ""
 }
 
 func hasASCIILetter(b []byte) bool {
